@@ -70,7 +70,7 @@ CASES = {
               {"k": "opcode_len", "v": 0x28, "exc": "", "execs": 0, "obj": True, "std": 4}],
         corrupt=lambda t: t[0].__setitem__("execs", 1), at=0),
     "Trace_Bindings": dict(
-        good=[{"ev": "init", "cfg": {"sgio": False, "iscsi": True}, "dev": [47, 100, 101, 118, 47, 120], "rw": False, "ini": [105],
+        good=[{"ev": "init", "via": "init_device", "touched": 0, "cfg": {"sgio": False, "iscsi": True}, "dev": [47, 100, 101, 118, 47, 120], "rw": False, "ini": [105],
                "default_ini": False, "class": "", "exc": "NotImplementedError", "opens": [], "connects": 0, "url": [], "ctx": []}],
         corrupt=lambda t: t[0].__setitem__("opens", [[[47, 100, 101, 118, 47, 120], "rb"]]), at=0),
     "Trace_Decoders": dict(
